@@ -164,6 +164,23 @@ CLAIMED = {
              '(lazy/eager pullers, value/void completion) and g++ 12.2 coroutine codegen; matching/counting/sequence checks at call time are the '
              'World model (C01-C08), only counting and the SIDE_EFFECT are re-observed here.',
         technique='Lean 4 proof (resumable machine vs specification list, induction over pulls) + model/implementation correspondence'),
+    'C12': dict(
+        text='PARTIAL. Proved (any number of threads, any schedule): in a well-formed trace two accesses by different threads made while '
+             'holding the one global lock are separated by a release of the first and a later acquisition by the second thread - no data race '
+             '(lock_discipline_drf via handover_both); every execution that touches shared state only under the lock is a concatenation of '
+             'single-thread critical sections and ends in the state of running them one at a time in lock-acquisition order - each operation '
+             'takes effect atomically (legal_execution_is_serial via cs_contiguous); the lock table observed on this run has no unheld access '
+             '(observed_accesses_all_held over the regenerated Gen/LockTable.lean). Observed, not proved: that every execution of the C++ obeys '
+             'the discipline - guarded access hooks + the library\'s custom-mutex customisation point give a per-site held/unheld table, 5 '
+             'scenarios x seeds x 2-8 threads run under ThreadSanitizer, and the operations of a concurrent run are replayed on the sequential '
+             'World model in critical-section order and must give the same handlers, counts, reports and query answers. Found and repaired: '
+             'F9, F10, F11 (three unsynchronised accesses).',
+        ref='DESIGN.md §4 C12', engine='lean-conc',
+        note='Trusted: Lean kernel; axioms propext/Classical.choice/Quot.sound; ThreadSanitizer; the instrumented mutex; that the hooked sites '
+             'are all shared accesses. Not covered: schedules not explored, deadlocks against user locks, user-supplied custom mutexes, memory-model '
+             'effects below the lock; an expectation statement is linearized at its hook (last critical section) - the two-phase registration '
+             'with IN_SEQUENCE is exercised under TSan and the lock table but not replayed against the model.',
+        technique='Lean 4 proof of race-freedom and atomicity from the lock discipline + observed lock table (regenerated, re-checked) + TSan + sequential replay'),
 }
 
 ALL = ['C%02d' % i for i in range(1, 21)]
@@ -194,8 +211,11 @@ def main():
         hooks=dict(guard='TROMPELOEIL_VERIF',
                    enable='checks compile their harnesses with -DTROMPELOEIL_VERIF where a hook is needed (C12 only); no hook is needed for the other properties',
                    baseline_off_cmd='cmake --build /repo/_build -j16 && /repo/_build/test/self_test',
-                   source_commits=[], add_only=True),
+                   source_commits=['3d1247c'], add_only=True),
         engines=[
+            dict(name='lean-conc', path='lean/TrompModel/Model/Conc.lean', serves_properties=['C12'],
+                 kind_free_text='Lean 4 model of lock traces / critical sections + theorems (Props/C12.lean); harness/conc built with TSan and with the '
+                                'TROMPELOEIL_VERIF access hooks + instrumented recursive mutex'),
             dict(name='lean-coro', path='lean/TrompModel/Model/Coro.lean', serves_properties=['C20'],
                  kind_free_text='Lean 4 model of co_return_handler_t::call as a resumable machine + theorems (Props/C20.lean); harness/coro (C++20)'),
             dict(name='lean-gen', path='tools/translate.py', serves_properties=['C09', 'C19'],
